@@ -9,7 +9,7 @@ EXTENDS Vec, SequencesExt, FiniteSetsExt
 VARIABLES v_lvl, v_idx
 
 Forms == {"self", "alias", "from", "fromas"}
-Uses == {"print", "set2", "concat", "idarg", "macroarg"}
+Uses == {"print", "set2", "concat", "idarg", "macroarg", "macroarg2"}
 Nests == {"none", "loop", "capture"}
 
 PName(j) == "p" \o ToString(j)
@@ -46,10 +46,13 @@ UseOf(c, call) ==
     [] c.use = "set2" -> <<SetS("r", call), PrintS(NameE("r")), PrintS(NameE("r"))>>
     [] c.use = "concat" -> <<PrintS(Bin("~", Grp(Bin("~", StrE("x"), call)), StrE("y")))>>
     [] c.use = "idarg" -> <<PrintS(CallE("id", <<call>>))>>
-    [] OTHER -> <<PrintS(CallM(c.form, "m1", <<call>>))>>
+    [] c.use = "macroarg" -> <<PrintS(CallM(c.form, "m1", <<call>>))>>
+    (* the call is the SECOND argument of another call, and the whole thing is evaluated twice *)
+    [] OTHER -> <<PrintS(CallM(c.form, "m2", <<StrE("z"), call>>)), Text(";"), PrintS(CallM(c.form, "m2", <<StrE("y"), call>>))>>
 UseExp(c, r) ==
   CASE c.use = "print" -> r [] c.use = "set2" -> r \o r [] c.use = "concat" -> "x" \o r \o "y"
-    [] c.use = "idarg" -> r [] OTHER -> "m1(" \o r \o ",)"
+    [] c.use = "idarg" -> r [] c.use = "macroarg" -> "m1(" \o r \o ",)"
+    [] OTHER -> "m2(z," \o r \o ",);m2(y," \o r \o ",)"
 NestOf(c, stmts) ==
   CASE c.nest = "none" -> stmts
     [] c.nest = "loop" -> <<ForS("", "v", ArrE(<<IntE(1), IntE(2)>>), NoE, stmts, <<>>, FALSE)>>
